@@ -1,8 +1,8 @@
 package main
 
 import (
-	"go/constant"
 	"fmt"
+	"go/constant"
 	"go/token"
 	"go/types"
 	"sort"
@@ -15,11 +15,11 @@ func init() { register("C13", c13) }
 
 // suppressions for C13.R1/R2: one named construct each, with the reason.
 var c13Suppress = map[string]string{
-	"error return after internal/patch.Trampoline in internal/proxy.Func from call:" + Mod + "/internal/unexports2.CreateFuncForCodePtr#1":                "CreateFuncForCodePtr fails only for a non-pointer placeholder, which the dominating bytecode.IsValidPtr test excludes",
+	"error return after internal/patch.Trampoline in internal/proxy.Func from call:" + Mod + "/internal/unexports2.CreateFuncForCodePtr#1":                 "CreateFuncForCodePtr fails only for a non-pointer placeholder, which the dominating bytecode.IsValidPtr test excludes",
 	"error return after internal/patch.InstanceMethodTrampoline in internal/proxy.Method from call:" + Mod + "/internal/unexports2.CreateFuncForCodePtr#1": "CreateFuncForCodePtr fails only for a non-pointer placeholder, which the dominating bytecode.IsValidPtr test excludes",
-	"error of internal/unexports2.GetSymbolTable in internal/unexports2.initAlignmentFunc": "redundant warm-up call after both symbol lookups already succeeded through the same loader; nothing depends on its result",
+	"error of internal/unexports2.GetSymbolTable in internal/unexports2.initAlignmentFunc":                                                                 "redundant warm-up call after both symbol lookups already succeeded through the same loader; nothing depends on its result",
 	// the same construct in rename-stable form (the function is unexported)
-	"error of internal/unexports2.GetSymbolTable in internal/unexports2.~func()()#0": "redundant warm-up call after both symbol lookups already succeeded through the same loader; nothing depends on its result",
+	"error of internal/unexports2.GetSymbolTable in internal/unexports2.~func()()#0":        "redundant warm-up call after both symbol lookups already succeeded through the same loader; nothing depends on its result",
 	"error of internal/unexports2.FindFuncByName in (*mocker.UnexportedMethodMocker).Apply": "deliberate pre-load of the symbol table: the same lookup is repeated and checked in proxy.FuncName, reached through applyByName on the next line",
 }
 
@@ -667,35 +667,35 @@ func c13Counts(p *Prog, r *Report) {
 		for _, want := range []string{"NumIn", "NumOut"} {
 			okLoop := false
 			for _, sf := range fnset {
-			eachInstr(sf, func(i ssa.Instruction) {
-				iff, ok := i.(*ssa.If)
-				if !ok {
-					return
-				}
-				bo, ok := iff.Cond.(*ssa.BinOp)
-				if !ok || bo.Op != token.LSS {
-					return
-				}
-				if nm, _ := accessorChain(bo.Y); nm != want {
-					return
-				}
-				if ph, ok := bo.X.(*ssa.Phi); ok {
-					zero, step := false, false
-					for _, e := range ph.Edges {
-						if cv, ok := constInt(e); ok && cv == 0 {
-							zero = true
-						}
-						if b2, ok := e.(*ssa.BinOp); ok && b2.Op == token.ADD && b2.X == ph {
-							if cv, ok := constInt(b2.Y); ok && cv == 1 {
-								step = true
+				eachInstr(sf, func(i ssa.Instruction) {
+					iff, ok := i.(*ssa.If)
+					if !ok {
+						return
+					}
+					bo, ok := iff.Cond.(*ssa.BinOp)
+					if !ok || bo.Op != token.LSS {
+						return
+					}
+					if nm, _ := accessorChain(bo.Y); nm != want {
+						return
+					}
+					if ph, ok := bo.X.(*ssa.Phi); ok {
+						zero, step := false, false
+						for _, e := range ph.Edges {
+							if cv, ok := constInt(e); ok && cv == 0 {
+								zero = true
+							}
+							if b2, ok := e.(*ssa.BinOp); ok && b2.Op == token.ADD && b2.X == ph {
+								if cv, ok := constInt(b2.Y); ok && cv == 1 {
+									step = true
+								}
 							}
 						}
+						if zero && step {
+							okLoop = true
+						}
 					}
-					if zero && step {
-						okLoop = true
-					}
-				}
-			})
+				})
 			}
 			r.Check(okLoop, "C13.R5", "SignatureEquals loop over 0.."+want, p.Pos(se.Pos()), "every slot compared",
 				"the per-slot size comparison does not range over every index 0.."+want+"()-1")
